@@ -218,7 +218,62 @@ def r4_codec_pairs(ctx, krate="cascette_formats", floor=2):
     ctx.floor(rule, n, floor, "encode_* / decode_* pairs")
 
 
+def r6_partition_loops(ctx, krate="cascette_formats", floor=1):
+    """a loop that distributes the items of its input over groups - it pushes the item into a current group, and pushes (or takes) that group into an outer
+    collection when the group is full - must put EVERY item into some group: a path through the loop body that closes the full group and starts the next one
+    without pushing the item loses one item at every group boundary, silently (build and parse both succeed)"""
+    rule = "C08.R6"
+    ctx.rule(rule, "partition loops (item pushed into a current group, groups pushed into an outer collection): the item is pushed on every iteration path")
+    from .c12 import some_edge
+    n = 0
+    for b in sorted(ctx.prog.bodies.values(), key=lambda x: x.id):
+        if b.krate != krate or b.expn:
+            continue
+        for nx in b.calls:
+            if nx.bb not in b.live_blocks() or not re.search(r"\bIterator>?::next$", nx.orig_name or nx.name):
+                continue
+            se = some_edge(b, nx)
+            if se is None:
+                continue
+            item = {st["p"][0] for (i, j, st) in b.stmts() if st["r"]["k"] == "Use" and st["r"]["o"][0]["k"] in ("cp", "mv") and
+                    st["r"]["o"][0]["p"][0] == nx.dest[0] and len(st["r"]["o"][0]["p"]) > 1 and len(st["p"]) == 1}
+            if not item:
+                continue
+            # a tokeniser walks bytes / chars and drops the separators on purpose: items of a partition are records
+            if all(re.match(r"^&?(u8|char|u16|u32)$", b.local_ty(l) or "") for l in item):
+                continue
+            loop = b.reachable([se], avoid={nx.bb})
+            item_push, group_locals = set(), set()
+            pushes = [c for c in b.calls if c.bb in loop and re.search(r"\bVec::<T, A>::push$", c.name) and len(c.args) >= 2 and op_local(c.args[1]) is not None]
+            for c in pushes:
+                sl = Slice(b, [op_local(c.args[1])], transparent=True)
+                if sl.locals & item:
+                    item_push.add(c.bb)
+                    rs = Slice(b, [op_local(c.args[0])], transparent=True)
+                    group_locals |= {l for l in rs.locals if b.locals[l].get("u")}
+            if not item_push or not group_locals:
+                continue
+            outer = False
+            for c in pushes:
+                if c.bb in item_push:
+                    continue
+                sl = Slice(b, [op_local(c.args[1])], transparent=True)
+                if sl.locals & group_locals:
+                    outer = True
+            if not outer:
+                continue
+            n += 1
+            ctx.saw(b)
+            skipping = nx.bb in b.reachable([se], avoid=item_push)
+            ctx.check(not skipping, rule, [b.id, "every-item-grouped"], "every item is pushed into a group on every iteration path",
+                      "%s distributes its input over groups but has an iteration path that does not push the item into any group (the branch that closes a full "
+                      "group and starts the next): one item disappears at every group boundary - the builder returns Ok, the output parses, and holds fewer "
+                      "entries than the builder was given" % ctx._stable(b.id), nx.loc(), sample={"in": b.id, "item_push_blocks": sorted(item_push)})
+    ctx.floor(rule, n, floor, "partition loops over records in cascette-formats")
+
+
 def run(ctx):
+    r6_partition_loops(ctx)
     # E-bitfield (rules/bitfield.py): the fields of a packed word partition it (mask == 2^shift - 1)
     from . import bitfield
     bitfield.rule_bitfields(ctx, "C08.R5", ["cascette_formats"], floor=3)
